@@ -1,7 +1,7 @@
 from datetime import datetime
 import io
 
-from pygments import highlight, lexers, formatters
+from pygments import lexers, formatters
 from termcolor import colored
 
 from pykdebugparser.callstacks_parser import CallstacksParser
@@ -166,9 +166,17 @@ class PyKdebugParser:
             formatted_data += f'{self._format_process(tid):<34}'
         event_rep = str(trace)
         if self.color:
-            event_rep = highlight(event_rep, c_lexer, color_formatter).strip()
+            event_rep = self._highlight(event_rep)
 
         return formatted_data + event_rep
+
+    @staticmethod
+    def _highlight(text):
+        # highlight() rewrites carriage returns and strips new lines, the tokens are formatted as they are instead so
+        # that coloring never changes the text.
+        colored_text = io.StringIO()
+        color_formatter.format(((ttype, value) for _, ttype, value in c_lexer.get_tokens_unprocessed(text)), colored_text)
+        return colored_text.getvalue()
 
     def _format_callstack(self, callstack):
         tid = callstack.tid
